@@ -124,7 +124,10 @@ pub fn scan_discard(data: &[u8]) -> Scan {
             TryFrame::Incomplete => break,
         }
     }
-    Scan { frames, error_at: None }
+    Scan {
+        frames,
+        error_at: None,
+    }
 }
 
 /// Close mode: frames back to back; the first offset that cannot start a frame is an error
@@ -137,9 +140,17 @@ pub fn scan_close(data: &[u8]) -> Scan {
                 frames.push((pos, f));
                 pos += n;
             }
-            TryFrame::Bad => return Scan { frames, error_at: Some(pos) },
+            TryFrame::Bad => {
+                return Scan {
+                    frames,
+                    error_at: Some(pos),
+                }
+            }
             TryFrame::Incomplete => break,
         }
     }
-    Scan { frames, error_at: None }
+    Scan {
+        frames,
+        error_at: None,
+    }
 }
